@@ -285,6 +285,9 @@ func checkCase(c *Case) (err error) {
 	if _, err := f.Handle("GET", "/redir/", endpoint("redir", 200), fox.WithRedirectTrailingSlash(true)); err != nil {
 		return fmt.Errorf("%s%v", desc, err)
 	}
+	if _, err := f.Handle("GET", "/rp/{p}", endpoint("rp", 200), fox.WithRedirectTrailingSlash(true)); err != nil {
+		return fmt.Errorf("%s%v", desc, err)
+	}
 	// routes served by ignoring a trailing slash (added and removed) are route handlers like any other
 	ignOpts := append(routeOpts("i", 0, 2), fox.WithIgnoreTrailingSlash(true))
 	if _, err := f.Handle("GET", "/ign/{p}", endpoint("ign", 200), ignOpts...); err != nil {
@@ -398,6 +401,12 @@ func checkCase(c *Case) (err error) {
 		{"no-route reached by OPTIONS", "OPTIONS", "/nothing/at/all", fox.NoRouteHandler, "H:noroute"},
 		{"no-route reached by a custom method", "BREW", "/nothing", fox.NoRouteHandler, "H:noroute"},
 		{"redirect", "GET", "/redir", fox.RedirectHandler, ""},
+		// redirects whose last segment is unusual: the redirect handler answers them all, once, under its own chain
+		{"redirect, escaped dot-dot segment", "GET", "/rp/%2e%2e/", fox.RedirectHandler, ""},
+		{"redirect, escaped dot segment", "GET", "/rp/%2E/", fox.RedirectHandler, ""},
+		{"redirect, escaped slash in the segment", "GET", "/rp/a%2Fb/", fox.RedirectHandler, ""},
+		{"redirect, colon in the segment", "GET", "/rp/a:b/", fox.RedirectHandler, ""},
+		{"redirect, query", "GET", "/rp/x/?q=%C3%A9&r=1", fox.RedirectHandler, ""},
 	}
 	for _, s := range special {
 		want := c.globalsFor(s.scope)
